@@ -96,6 +96,8 @@ pub struct Program {
     pub parent_first: bool,
     /// the same program in two parent cells of one library
     pub two_parents: bool,
+    /// cells of at least 2x2 get a stepped (L-shaped) outline with the same bounding box
+    pub stepped: bool,
 }
 
 impl Program {
@@ -152,7 +154,7 @@ impl Program {
                 "inner_array": a.inner.as_ref().map(|(c, p)| json!({"count": c, "pitch_xy": [p.0, p.1]})), "reflect_horiz": a.rh, "reflect_vert": a.rv, "loc": [a.at.0, a.at.1]}))
             .collect();
         let cells: Vec<Value> = self.cells.iter().enumerate().map(|(i, c)| json!({"name": format!("c{i}"), "outline_rect": [c.0, c.1]})).collect();
-        json!({"cells": cells, "instances": insts, "arrays": arrays, "parent_listed_first": self.parent_first, "two_parent_cells": self.two_parents})
+        json!({"cells": cells, "instances": insts, "arrays": arrays, "parent_listed_first": self.parent_first, "two_parent_cells": self.two_parents, "stepped_outlines_same_bounding_box": self.stepped})
     }
 }
 
@@ -216,7 +218,13 @@ pub fn run_program(p: &Program, listing: &[usize]) -> Result<Vec<ParentSeen>, St
     let mut cellptrs = Vec::new();
     let mut celldefs = Vec::new();
     for (i, (w, h)) in p.cells.iter().enumerate() {
-        let o = Outline::rect(*w as isize, *h as isize).map_err(|e| format!("setup: {e:?}"))?;
+        let o = if p.stepped && *w >= 2 && *h >= 2 {
+            // an L: full width up to half the height, half the width above; the bounding box is still w x h
+            Outline::new(&[*w as isize, (*w / 2) as isize], &[(*h / 2) as isize, *h as isize])
+        } else {
+            Outline::rect(*w as isize, *h as isize)
+        }
+        .map_err(|e| format!("setup: {e:?}"))?;
         celldefs.push(Layout::new(format!("c{i}"), 0, o));
     }
     let nparents = if p.two_parents { 2 } else { 1 };
@@ -455,6 +463,7 @@ fn self_check() -> &'static Result<(), String> {
             cells: vec![(1, 1)],
             insts: t.iter().map(|x| InstDef { cell: 0, rh: false, rv: false, loc: match x { None => Loc::Abs(0, 0), Some(k) => Loc::Rel { to: *k, side: S::Right, align: S::Bottom, sep: Sep::None } } }).collect(),
             arrays: vec![],
+            stepped: false,
             parent_first: false,
             two_parents: false,
         };
@@ -775,7 +784,9 @@ impl CaseDriver for Pair {
         let sep = [Sep::None, Sep::Pitches(1), Sep::Pitches(5), Sep::SizeOf(4)][c.free(4, "sep")].clone();
         let parent_first = c.flag("parent-first");
         let two_parents = c.flag("two-parents");
+        let stepped = c.flag("stepped-outlines");
         Program {
+            stepped,
             cells: PAIR_CELLS.to_vec(),
             insts: vec![
                 InstDef { cell: rs, rh: rr.0, rv: rr.1, loc: Loc::Abs(rl.0, rl.1) },
@@ -855,7 +866,8 @@ impl CaseDriver for Graph {
             };
             insts.push(InstDef { cell, rh: r.0, rv: r.1, loc });
         }
-        Program { cells: GRAPH_CELLS.to_vec(), insts, arrays: vec![], parent_first: false, two_parents: false }
+        let stepped = c.cost(2, "stepped-outlines") == 1;
+        Program { cells: GRAPH_CELLS.to_vec(), insts, arrays: vec![], parent_first: false, two_parents: false, stepped }
     }
     fn check(&self, p: &Program, key: &str, cx: &mut Cx) {
         let nrel = p.insts.iter().filter(|d| matches!(d.loc, Loc::Rel { .. })).count();
@@ -940,7 +952,8 @@ impl CaseDriver for Arr {
         } else {
             vec![]
         };
-        Program { cells: GRAPH_CELLS.to_vec(), insts, arrays: vec![ArrayDef { cell, count, pitch, inner, rh: r.0, rv: r.1, at }], parent_first: false, two_parents: false }
+        let stepped = c.cost(2, "stepped-outlines") == 1;
+        Program { cells: GRAPH_CELLS.to_vec(), insts, arrays: vec![ArrayDef { cell, count, pitch, inner, rh: r.0, rv: r.1, at }], parent_first: false, two_parents: false, stepped }
     }
     fn check(&self, p: &Program, key: &str, cx: &mut Cx) {
         let a = &p.arrays[0];
